@@ -466,6 +466,7 @@ pub fn run(ctx: &Ctx, report: &mut Report) {
         || workload(schedules),
         oracle,
     );
+    crate::sched::fold_stress("C32", report);
 }
 
 pub fn replay(_check: &str, case: &serde_json::Value) -> Verdict {
